@@ -10,6 +10,8 @@ sys.setrecursionlimit(10000)
 
 def norm_path(p):
     """std:: / core:: / alloc:: spelling differs per configuration (no_std vs std re-exports)."""
+    if not isinstance(p, str):
+        return ""
     return re.sub(r"\b(std|core|alloc)::", "core::", p)
 
 
@@ -282,6 +284,10 @@ class Fn:
         c = t["callee"]
         name = callee_name(c)
         args = tuple(self.expr_operand(a, depth + 1, stack) for a in t["args"])
+        acc = self.facts.accessor(name) if self.facts is not None else None
+        if acc is not None and len(args) == 1:
+            # a crate-local accessor (`fn as_bytes(&self) -> &[u8; 32] { &self.0 }`): the call IS the field path of its argument
+            return ("path", args[0], acc)
         return ("call", name, args)
 
     def expr_rvalue(self, rv, depth=0, stack=()):
@@ -520,6 +526,29 @@ class Facts:
         self._wsum = None
         self._cg = None
 
+    def accessor(self, name):
+        """field path returned by a one-argument crate-local function whose whole body is `&self.a.b` / `self.a.b` (no calls,
+        one basic block chain), else None.  Lets rules see through `as_bytes()`-style getters, known or new."""
+        cache = self.__dict__.setdefault("_acc", {})
+        if name in cache:
+            return cache[name]
+        cache[name] = None
+        f = self.fns.get(name)
+        if f is None or not f.has_body or f.argc != 1 or any(True for _ in f.calls()) or len(f.blocks) > 3:
+            return None
+        import inliner
+        if name in inliner.baseline().get(self.crate, ()) and name not in SEE_THROUGH:
+            return None         # rules name the getters of the pinned tree explicitly; only new ones (and SEE_THROUGH) are transparent
+        if f.j.get("impl_trait"):
+            return None
+        try:
+            e = val(f.expr_local(0))
+        except Exception:
+            return None
+        if isinstance(e, tuple) and e and e[0] == "path" and isinstance(e[1], tuple) and e[1][:2] == ("arg", 1) and all(isinstance(x, str) for x in e[2]):
+            cache[name] = tuple(e[2])
+        return cache[name]
+
     def cfg_features(self):
         """cargo features of this configuration (from the extraction table)"""
         try:
@@ -748,6 +777,8 @@ class ConstT(tuple):
         return hash(self._key())
 
 
+import re as _re
+_FROM_RE = _re.compile(r"impl (?:std|core)::convert::From<(u8|u16|u32|u64|usize|bool)> for (u8|u16|u32|u64|u128|usize|char)>::from$")
 INT_TY_BITS = {"u8": 8, "u16": 16, "u32": 32, "u64": 64, "usize": 32, "u128": 128, "i32": 31, "i64": 63, "isize": 31}
 _SLICE_SPLITS = ("::split_at", "::split_at_mut")
 
@@ -792,11 +823,11 @@ def _canon(e):
             n = _slice_len(e[2][0])
             if n is not None:
                 return n
-        if (nm.endswith("From<u8>>::from") or nm.endswith("From<u16>>::from") or nm.endswith("From<u32>>::from") or nm.endswith("From<u64>>::from")
-                or nm.endswith("From<usize>>::from") or nm.endswith("From<bool>>::from")) and nm.startswith("<"):
-            to = nm[1:].split(" as ")[0]
-            if to in INT_TY_BITS:
-                return _canon(("cast", e[2][0], to))
+        m_ = _FROM_RE.search(nm)
+        if m_ and (m_.group(2) in INT_TY_BITS or m_.group(2) == "char"):
+            return _canon(("cast", e[2][0], m_.group(2)))       # u64::from(x), usize::from(x), char::from(b): lossless `as`
+        if nm.endswith("Into<T>>::into") or nm.endswith("::into"):
+            pass
     if k == "call" and len(e[2]) == 2 and isinstance(e[1], str) and (e[1].endswith("Ord>::min") or e[1].endswith("::min") and e[1].startswith("core::num")):
         return ("call", "core::cmp::min", e[2])
     if k == "call" and len(e[2]) == 2 and isinstance(e[1], str) and (e[1].endswith("Ord>::max") or e[1].endswith("::max") and e[1].startswith("core::num")):
@@ -924,6 +955,7 @@ def find_sub(e, p, b=None):
     return None
 
 
+SEE_THROUGH = {"Hash::as_bytes"}
 SPEC_CONSTS = {"CHUNK_LEN": 1024, "BLOCK_LEN": 64, "OUT_LEN": 32, "KEY_LEN": 32, "MAX_DEPTH": 54, "CHUNK_START": 1, "CHUNK_END": 2, "PARENT": 4,
                "ROOT": 8, "KEYED_HASH": 16, "DERIVE_KEY_CONTEXT": 32, "DERIVE_KEY_MATERIAL": 64}
 
